@@ -24,7 +24,8 @@ class Cache:
     cols: dict[UUID, Col]  # all columns in current scope (including hidden ones)
 
     # the following are only necessary for subquery detection
-    limit: int
+    # `None`: no `slice_head` in the current SELECT (0 is a legal limit)
+    limit: int | None
     group_by: set[UUID]
     is_filtered: bool
 
@@ -84,7 +85,7 @@ class Cache:
             partition_by=[],
             derived_from={node},
             cols={col._uuid: col for col in node.cols.values()},
-            limit=0,
+            limit=None,
             group_by=set(),
             is_filtered=False,
             backend=type(node),
@@ -171,7 +172,7 @@ class Cache:
             res.uuid_to_name = {uid: name for name, uid in res.name_to_uuid.items()}
 
             res.derived_from = self.derived_from | right_cache.derived_from
-            res.limit = 0
+            res.limit = None
             res.group_by = set()
 
         elif isinstance(node, verbs.Union):
@@ -186,7 +187,7 @@ class Cache:
             res.uuid_to_name = self.uuid_to_name.copy()
 
             res.derived_from = self.derived_from | right_cache.derived_from
-            res.limit = 0
+            res.limit = None
             res.group_by = set()
 
         elif isinstance(node, verbs.SubqueryMarker):
@@ -200,7 +201,7 @@ class Cache:
                 )
                 for uid, col in self.cols.items()
             }
-            res.limit = 0
+            res.limit = None
             res.group_by = set()
             res.is_filtered = False
 
@@ -221,7 +222,7 @@ class Cache:
                 node,
                 verbs.Filter | verbs.Summarize | verbs.Arrange | verbs.GroupBy | verbs.Join | verbs.Union,
             )
-            and self.limit != 0
+            and self.limit is not None
         ):
             return f"`{node.__class__.__name__.lower()}` after `slice_head`"
 
